@@ -103,13 +103,12 @@ theorem nested_instances :
 
 /-! ### the clauses of `InFamily` are forced: one negative witness each -/
 
-/-- a default containing `.` (F-C18-a): the header is split at its first dot before the
-annotation is read -/
-theorem needs_no_dot_in_default :
+/-- a default containing `.` (former finding F-C18-a, fixed in /repo): nesting is decided on
+the field name, so the dotted default is read back exactly (the family predicate is still
+conservative about it) -/
+theorem dotted_default_roundtrips :
     let sch : Schema := [("s".toList, .str, .str "a.b".toList)]
-    inFamilyB sch = false ∧ roundtripB sch = false ∧
-    inferIs (renderHeaders sch) (.model [("s=a".toList, .model [("b".toList, .str, .str [])],
-      defaultRecord [("b".toList, .str, .str [])])]) = true := by decide +kernel
+    roundtripB sch = true := by decide +kernel
 
 /-- `:` in a name -/
 theorem needs_no_colon_in_name :
